@@ -95,3 +95,87 @@ func verifNewFlowTracker(tracer tracing.ITracer, element *schema.InclusiveGatewa
 }
 
 func verifActiveFlowsInCohort(tracker *flowTracker, flowId id.Id) []id.Id { return []id.Id{flowId} }
+
+// ---------------------------------------------------------------------------------------------
+// C05.b: the join's picture of live tokens.  flowTracker.handleTrace / activeFlowsInCohort are driven directly with a
+// history of traces chosen by the solver (a flow created towards the join by an ordinary node, a flow created elsewhere,
+// a flow re-tagged by an inclusive fork, a flow's termination) and compared after every step with a reference picture.
+var verifFlowIds = []*verifId{{n: 1}, {n: 2}, {n: 3}}
+
+func verifC05Tracker(L int) {
+	b := verifNewB("p")
+	b.task("x", nil, []string{"toJoin", "toOther"})
+	b.inclusive("fork", nil, []string{"toJoin2"}, "")
+	b.inclusive("join", []string{"toJoin", "toJoin2"}, nil, "")
+	b.task("other", []string{"toOther"}, nil)
+	b.flow("toJoin", "x", "join", false)
+	b.flow("toOther", "x", "other", false)
+	b.flow("toJoin2", "fork", "join", false)
+	defs := b.defs()
+	p := &defs.ProcessField[0]
+	find := func(fid string) *SequenceFlow {
+		for i := range p.SequenceFlowField {
+			if idp, _ := p.SequenceFlowField[i].Id(); *idp == fid {
+				sf := MakeSequenceFlow(&p.SequenceFlowField[i], p)
+				return &sf
+			}
+		}
+		return nil
+	}
+	toJoin, toOther, toJoin2 := find("toJoin"), find("toOther"), find("toJoin2")
+	tracker := &flowTracker{flows: make(map[id.Id]schema.Id), element: &p.InclusiveGatewayField[1], activityCh: make(chan struct{}, 1)}
+	srcX := schema.FlowNodeInterface(&p.TaskField[0])
+	srcFork := schema.FlowNodeInterface(&p.InclusiveGatewayField[0])
+	reached := false
+	refReached := false
+	var refTag [3]string // "" = not live
+	for step := 0; step < L; step++ {
+		verifMerge()
+		f := verifChoice("flow", 0, 2)
+		fid := id.Id(verifFlowIds[f])
+		var tr tracing.ITrace
+		switch verifChoice("kind", 0, 3) {
+		case 0: // created by x towards the join
+			tr = FlowTrace{Source: srcX, Flows: []Snapshot{{flowId: fid, sequenceFlow: toJoin}}}
+			refReached = true
+			if refTag[f] == "" {
+				refTag[f] = "x"
+			}
+		case 1: // created by x towards another node
+			tr = FlowTrace{Source: srcX, Flows: []Snapshot{{flowId: fid, sequenceFlow: toOther}}}
+			if refTag[f] == "" {
+				refTag[f] = "x"
+			}
+		case 2: // (re-)tagged by the inclusive fork
+			tr = FlowTrace{Source: srcFork, Flows: []Snapshot{{flowId: fid, sequenceFlow: toJoin2}}}
+			refReached = true
+			refTag[f] = "fork"
+		default:
+			tr = TerminationTrace{FlowId: fid, Source: srcX}
+			refTag[f] = ""
+		}
+		_, _, reached = tracker.handleTrace(true, tr, false, reached)
+		verifAssert(reached == refReached, "the tracker knows that a flow has been created towards its node from the first such trace on, and never forgets it")
+		for i := 0; i < 3; i++ {
+			tag, live := tracker.flows[id.Id(verifFlowIds[i])]
+			verifAssert(live == (refTag[i] != ""), "the tracker's set of live flows is exactly the flows created and not yet terminated")
+			if live && refTag[i] != "" {
+				verifAssert(string(tag) == refTag[i], "a live flow carries the tag of the node that created it (re-tagged only by an inclusive gateway)")
+			}
+		}
+	}
+	// cohort query for flow 0
+	res := tracker.activeFlowsInCohort(id.Id(verifFlowIds[0]))
+	want := 0
+	for i := 0; i < 3; i++ {
+		if refTag[0] != "" && refTag[i] == refTag[0] {
+			want++
+		}
+	}
+	verifAssert(len(res) == want, "the cohort of a flow is exactly the live flows with the same tag")
+	verifReach("end")
+}
+
+func VerifC05b_Tracker_L2() { verifC05Tracker(2) }
+func VerifC05b_Tracker_L3() { verifC05Tracker(3) }
+func VerifC05b_Tracker_L4() { verifC05Tracker(4) }
